@@ -211,4 +211,115 @@ theorem pppoe_parse_link (b : Bytes) (p : PPPoE) (i : Inner) (h : PPPoE.parse b 
         refine ⟨fun h0 => absurd (hsame.2.2.1 ▸ h0) hc0, hinv.2⟩
       · simp only [ep, bind, Out.bind] at h; cases h
 
+private theorem map_ok' {α β} {x : Out α} {f : α → β} {r : β} (h : (x >>= fun a => pure (f a)) = .ok r) :
+    ∃ a, x = .ok a ∧ f a = r := by
+  cases x with
+  | ok a => exact ⟨a, rfl, by simpa [bind, Out.bind, pure] using h⟩
+  | throw e => cases h
+  | fault s => cases h
+
+/-- a Dot1Q that does not pad on behalf of `append_padding_` / any other object -/
+def NoAppendObj : Obj → Prop
+  | .dot1q q => q.appendPadding = false
+  | _ => True
+
+/-- **every parsing constructor of the family establishes the link** to whatever it builds on the rest of the buffer -/
+theorem l2_parse_link (cls : String) (b : Bytes) (x : Obj) (i : Inner) (hc : cls ∈ classes)
+    (h : parse cls b = .ok (x, i)) (hs : Serializable x) : LinkInner x i ∧ (info x).1 = cls ∧ NoAppendObj x := by
+  simp only [classes, List.mem_cons, List.mem_nil_iff, or_false] at hc
+  rcases hc with hc | hc | hc | hc | hc | hc | hc | hc | hc | hc | hc <;> subst hc <;> simp only [parse] at h <;>
+    rcases map_ok' h with ⟨⟨y, j⟩, hy, hr⟩ <;> injection hr with hx hi <;> subst hx <;> subst hi
+  · exact ⟨eth_parse_link b y j hy, rfl, trivial⟩
+  · exact ⟨dot3_parse_link b y j hy, rfl, trivial⟩
+  · exact ⟨llc_parse_link b y j hy, rfl, trivial⟩
+  · exact ⟨snap_parse_link b y j hy, rfl, trivial⟩
+  · exact ⟨(dot1q_parse_link b y j hy).1, rfl, (dot1q_parse_link b y j hy).2⟩
+  · exact ⟨mpls_parse_link b y j hy, rfl, trivial⟩
+  · exact ⟨pppoe_parse_link b y j hy, rfl, trivial⟩
+  · exact ⟨sll_parse_link b y j hy, rfl, trivial⟩
+  · exact ⟨loopback_parse_link b y j hy, rfl, trivial⟩
+  · exact hs.elim
+  · exact hs.elim
+
+private theorem wrap_ne_l2 {α} (X : Out (α × Inner)) (f : α → AnyObj) (hf : ∀ a x, f a ≠ .l2 x) (x : Obj) (i : Inner) :
+    (X >>= fun (o, j) => pure (f o, j)) ≠ .ok (.l2 x, i) := by
+  intro h
+  cases X with
+  | ok a =>
+    simp only [bind, Out.bind, pure] at h
+    injection h with h
+    injection h with h1 _
+    exact hf _ _ h1
+  | throw e => cases h
+  | fault s => cases h
+
+/-- the registry builds a family object only through the family's parsing constructors … -/
+theorem parseOne_l2_inv (cls : String) (b : Bytes) (x : Obj) (i : Inner) (h : parseOne cls b = .ok (.l2 x, i)) :
+    cls ∈ classes ∧ parse cls b = .ok (x, i) := by
+  unfold parseOne at h
+  split at h
+  · cases h
+  · split at h
+    · rename_i hm
+      refine ⟨by simpa using hm, ?_⟩
+      cases hp : parse cls b with
+      | ok a =>
+        rw [hp] at h
+        simp only [bind, Out.bind, pure] at h
+        injection h with h
+        injection h with h1 h2
+        injection h1 with h1
+        subst h1; subst h2
+        rfl
+      | throw e => rw [hp] at h; cases h
+      | fault s => rw [hp] at h; cases h
+    · exfalso
+      split at h
+      · exact wrap_ne_l2 _ AnyObj.ip (fun _ _ hh => by cases hh) x i h
+      · split at h
+        · exact wrap_ne_l2 _ AnyObj.ip6 (fun _ _ hh => by cases hh) x i h
+        · split at h
+          · exact wrap_ne_l2 _ AnyObj.icmp (fun _ _ hh => by cases hh) x i h
+          · split at h
+            · exact wrap_ne_l2 _ AnyObj.tr (fun _ _ hh => by cases hh) x i h
+            · split at h
+              · exact wrap_ne_l2 _ AnyObj.app (fun _ _ hh => by cases hh) x i h
+              · split at h
+                · exact wrap_ne_l2 _ AnyObj.wifi (fun _ _ hh => by cases hh) x i h
+                · cases h
+
+/-- … and a RawPDU only at the entry point `RawPDU` -/
+theorem parseOne_raw_inv (cls : String) (b : Bytes) (p : Bytes) (i : Inner) (h : parseOne cls b = .ok (.raw p, i)) :
+    i = .none := by
+  unfold parseOne at h
+  split at h
+  · injection h with h; injection h with _ h2; exact h2.symm
+  · exfalso
+    have wrap : ∀ {α} (X : Out (α × Inner)) (f : α → AnyObj), (∀ a q, f a ≠ .raw q) →
+        (X >>= fun (o, j) => pure (f o, j)) ≠ .ok (.raw p, i) := by
+      intro α X f hf hh
+      cases X with
+      | ok a =>
+        simp only [bind, Out.bind, pure] at hh
+        injection hh with hh
+        injection hh with h1 _
+        exact hf _ _ h1
+      | throw e => cases hh
+      | fault s => cases hh
+    split at h
+    · exact wrap _ AnyObj.l2 (fun _ _ hh => by cases hh) h
+    · split at h
+      · exact wrap _ AnyObj.ip (fun _ _ hh => by cases hh) h
+      · split at h
+        · exact wrap _ AnyObj.ip6 (fun _ _ hh => by cases hh) h
+        · split at h
+          · exact wrap _ AnyObj.icmp (fun _ _ hh => by cases hh) h
+          · split at h
+            · exact wrap _ AnyObj.tr (fun _ _ hh => by cases hh) h
+            · split at h
+              · exact wrap _ AnyObj.app (fun _ _ hh => by cases hh) h
+              · split at h
+                · exact wrap _ AnyObj.wifi (fun _ _ hh => by cases hh) h
+                · cases h
+
 end Tins.Wire.L2
